@@ -240,11 +240,13 @@ impl Planner {
         }
         // B4: verified covers as base symbols (renumbered, half dualised)
         for cc in cover_counts.list.iter() {
-            let reps = match (thorough, cc.known_euclidean) {
-                (false, true) => 20,
-                (false, false) => 1,
-                (true, true) => 600,
-                (true, false) => 8,
+            let extra = cc.id.starts_with('H') || cc.id.starts_with('I');
+            let reps = match (thorough, cc.known_euclidean, extra) {
+                (_, _, true) => 1,
+                (false, true, false) => 20,
+                (false, false, false) => 1,
+                (true, true, false) => 600,
+                (true, false, false) => 8,
             };
             for j in 0..cc.count {
                 // j = 0 is the trivial (1-sheeted) cover: covered by B1-B3
@@ -504,21 +506,40 @@ pub struct CoverCounts {
 }
 
 impl CoverCounts {
-    pub fn compute(entries: &[(&Entry, bool)], k: usize) -> CoverCounts {
-        let mut list = vec![];
-        for (e, known) in entries {
-            let s = match Sym::parse(&e.text) {
-                Ok(s) => s,
-                Err(_) => continue,
-            };
-            let r = std::panic::catch_unwind(std::panic::AssertUnwindSafe(|| {
-                covers(&s.to_partial(), k).iter().map(|c| rust_dsymbols::dsets::DSet::size(c) / s.n).collect::<Vec<_>>()
-            }));
-            if let Ok(sheets) = r {
-                list.push(CoverCount { id: e.id.clone(), text: e.text.clone(), k, count: sheets.len(), sheets, known_euclidean: *known });
-            }
-        }
-        CoverCounts { list }
+    /// `entries`: (entry, known-euclidean, sheet bound). Computed on 16 threads
+    /// (pure builder work; the order of the result is the order of `entries`).
+    pub fn compute(entries: &[(&Entry, bool, usize)]) -> CoverCounts {
+        let n_threads = 16usize;
+        let per_thread: Vec<Vec<(usize, Option<CoverCount>)>> = std::thread::scope(|sc| {
+            let handles: Vec<_> = (0..n_threads)
+                .map(|t| {
+                    sc.spawn(move || {
+                        let mut out = vec![];
+                        for (i, (e, known, k)) in entries.iter().enumerate().skip(t).step_by(n_threads) {
+                            let s = match Sym::parse(&e.text) {
+                                Ok(s) => s,
+                                Err(_) => {
+                                    out.push((i, None));
+                                    continue;
+                                }
+                            };
+                            let r = std::panic::catch_unwind(std::panic::AssertUnwindSafe(|| {
+                                covers(&s.to_partial(), *k).iter().map(|c| rust_dsymbols::dsets::DSet::size(c) / s.n).collect::<Vec<_>>()
+                            }));
+                            out.push((
+                                i,
+                                r.ok().map(|sheets| CoverCount { id: e.id.clone(), text: e.text.clone(), k: *k, count: sheets.len(), sheets, known_euclidean: *known }),
+                            ));
+                        }
+                        out
+                    })
+                })
+                .collect();
+            handles.into_iter().map(|h| h.join().unwrap_or_default()).collect()
+        });
+        let mut all: Vec<(usize, Option<CoverCount>)> = per_thread.into_iter().flatten().collect();
+        all.sort_by_key(|x| x.0);
+        CoverCounts { list: all.into_iter().filter_map(|x| x.1).collect() }
     }
 }
 
